@@ -29,7 +29,8 @@ ASSUMPTIONS = ('a queue key is `prefix-<15 digits>` (or an int in (0, 10**15) fo
                'ordinary key outside the queue key range',)
 
 T = 64
-PREFIXES = [None, 'a', 'b', 'a-5', 'a-', 'ab', 'a-5-x', 'a-5-7', 'queue', 'queue-1']
+PREFIXES = [None, 'a', 'b', 'a-5', 'a-', 'ab', 'a-5-x', 'a-5-7', 'queue', 'queue-1',
+            '', 'a\x00b', '\u00e9', ' ', 'a*', '%', '-']      # legal text prefixes: empty, with NUL, non-ASCII, GLOB/LIKE characters
 
 
 def plan(tier):
@@ -46,7 +47,8 @@ def is_queue_key(prefix, key):
 ORDINARY = [-1, -500000000000000, 0, 10**15, 10**15 + 7, 2**62, 'a', 'b', 'a-5', 'a-', 'ab', 'a-x', 'a-5-x',
             'a-12345678901234x', 'a-500000000000000x', 'a-50000000000000', 'b-', 'a-5-', b'a-500000000000000',
             'a-5-12345678901234x', 'queue-12', 'queue-50000000000000x',
-            ('a', 5), 'a-5-x-', None, -2.5, 1e16, 'aa-500000000000000x']
+            ('a', 5), 'a-5-x-', None, -2.5, 1e16, 'aa-500000000000000x', '-50000000000000x', '-5', 'a\x00b-5',
+            'a\x00b-50000000000000\x00', '\u00e9-x', '%-', '--']
 
 
 class QModel:
